@@ -17,7 +17,9 @@ CLAIMED = {
     "C15": ("Theorems over every timed history: C15_judged, C15_honoured (strictly before max(timeout,Expires) elapsed), C15_never_after, C15_removed, C15_swept (after any "
             "pin-creating event nothing expired for more than one timeout remains, whatever Expires values were seen), C15_bounded, C15_legacy_refuted (the pre-fix code violates it). "
             "Correspondence: histories against the real DialogBasedBackend with time simulated by shifting stored instants; judge applied to every implementation observation. "
-            "The proxy-level triggers (BYE response, NOTIFY terminated) are covered by the whole-proxy engine.",
+            "The proxy-level triggers (BYE answered with any final status, NOTIFY terminated) and the lifetime wiring of the REAL binary are run through the whole-proxy engine by this "
+            "check too: termination histories, and real-time histories (dialogTimeout 2 s, Expires 1/3 s, the driver sleeps; pins probed at <= 35 % and >= 130 % of their lifetime) judged by the "
+            "history judge of C04, which demands the pinned backend while a pin is young and the rotation's next backend once it is over.",
             "One clock reading per operation in the model (Go reads it up to three times; probes keep a 50 ms margin from every boundary). Expires <= 2^31-1.",
             "Coq proof (invariant over timed histories, refinement to a per-key specification state) + differential run with simulated time"),
     "C18": ("Theorems: C18_glob_correct (matcher = declarative '*' relation), C18_precedence and C18_judged (literal > wildcard > default > none, against the independent judge reading the "
